@@ -41,4 +41,21 @@ PROPS = {
              "set/frame axis), or a pair whose validity differs between Inclusive and Exclusive. Distinct = hash of the decoded case.",
         assumptions=COMMON_ASSUME + ["positions whose index would exceed 2*10^4 on an unbounded axis are outside the quantified domain and not generated"],
     ),
+    "C01": dict(
+        bin="h_array", sub="c01", level="exploration",
+        technique="rapidcheck-generated operation histories on a DataArray compared after every read with an in-memory n-d array model",
+        level_text="generated histories (write hyperslab through four front ends, whole-array setData through containers, append, "
+                   "extent change, reads through four front ends, cross-type reads, calibration, reopen) over 12 element types, ranks 1-4, "
+                   "three compression settings; an n-d array model predicts every read, a full scan follows every reopen and the end; "
+                   "exploration of histories up to 40 operations and 12 elements per axis",
+        level_note="model = row-major vector + extent; calibrated reads are compared with the polynomial at (stored-origin) under a relative "
+                   "tolerance of 1e-9 of the sum of the absolute terms (any evaluation order passes) and exactly when all operands are small "
+                   "integers; cross-type reads only for values exactly representable in the requested type",
+        quick=dict(cases=500, size=500, workers=16, timeout=1800),
+        thorough=dict(cases=12000, size=500, workers=16, timeout=14400),
+        rule="tape -> element type, rank 1-4, initial extent per axis (0, 1, 2-6), file/array compression, then up to 40 operations. "
+             "Non-trivial: at least 2 writes, at least one extent change or append and at least one later read that overlaps both written "
+             "and never-written elements. Distinct = hash of the decoded history.",
+        assumptions=COMMON_ASSUME + ["strings never contain NUL (HDF5 variable length C strings cannot hold it)"],
+    ),
 }
